@@ -261,4 +261,20 @@ Fixpoint sl_walk (fuel : nat) (e : Env) (pts : list (BP (F:=F))) (offset_end : F
     end
   else Ok s.
 
+(* ---------------------------------------------------------------- TrainState::new
+   The state a simulation starts from (row 0 of its history): the front is at max(initial offset, length)
+   (an unset initial offset is NaN and f64::max then yields the length), the rear one train length behind. *)
+Definition ts_new (length mass_static mass_rot mass_freight : F) (t0 : F) (offset0 : option F) (v0 : F)
+  : TState (F:=F) :=
+  let offset := match offset0 with Some o => nmax o length | None => length end in
+  {| ts_k := {| k_time := t0; k_i := 1; k_offset := offset; k_offset_back := offset - length;
+                k_total_dist := n0; k_link_idx_front := 0%Z; k_offset_in_link := n0;
+                k_speed := v0; k_speed_limit := v0; k_speed_target := n0; k_dt := n1 |};
+     ts_p := {| p_length := length; p_mass_static := mass_static; p_mass_rot := mass_rot;
+                p_mass_freight := mass_freight |};
+     ts_r := {| r_weight_static := n0; r_rolling := n0; r_bearing := n0; r_davis_b := n0; r_aero := n0;
+                r_grade := n0; r_curve := n0; r_grade_front := n0; r_grade_back := n0; r_elev_front := n0 |};
+     ts_w := {| w_pwr_res := n0; w_pwr_accel := n0; w_pwr_whl_out := n0; w_energy_whl_out := n0;
+                w_energy_whl_out_pos := n0; w_energy_whl_out_neg := n0 |} |}.
+
 End TrainStep.
